@@ -2,4 +2,18 @@
 symbolic pre-state `o` of the verified function to the formula describing exactly the inputs on
 which the recorded defect manifests; a failed obligation counts as that finding only if it is
 discharged once this class is excluded."""
-FINDING_CLASSES = {}
+import z3
+
+from .common import CC, FH, handler_for, table_of
+from pyvc.values import Or_
+
+
+def _some_abandon(o):
+    """some fault condition the destination handler can declare is configured as ABANDON_TRANSACTION"""
+    d = table_of(o.self)
+    return Or_(*[handler_for(d, c) == int(FH.ABANDON_TRANSACTION) for c in (
+        CC.FILESTORE_REJECTION, CC.FILE_CHECKSUM_FAILURE, CC.CHECK_LIMIT_REACHED, CC.FILE_SIZE_ERROR, CC.NAK_LIMIT_REACHED,
+        CC.POSITIVE_ACK_LIMIT_REACHED)])
+
+
+FINDING_CLASSES = {"F5c": _some_abandon}
